@@ -197,38 +197,7 @@ func c01(c *core.Ctx) {
 	for _, k := range sortedKeys(grow) {
 		c.Violation("C01.R2", "redis-queue|append-only|"+k, grow[k], "the redis queue grows the list with "+k+": order of one publisher's messages is not preserved")
 	}
-	// no traversal of a list element after it was unlinked
-	for _, fn := range p.FuncsOfPkg("persistence/queue/mem") {
-		for ri, rm := range ssax.Calls(fn, false, ssax.ByName("(*container/list.List).Remove")) {
-			el := ssax.Args(rm.Instr)[0]
-			hit, found := ssax.PathQuery{Fn: rm.Fn, From: rm.Instr, NoBackEdges: true, To: func(in ssa.Instruction) bool {
-				call, ok := in.(*ssa.Call)
-				if !ok {
-					return false
-				}
-				n := ssax.ResolveCallee(&call.Call).Name
-				if n != "(*container/list.Element).Next" && n != "(*container/list.Element).Prev" {
-					return false
-				}
-				return call.Call.Args[0] == el || ssax.SameExpr(call.Call.Args[0], el)
-			}, Avoid: func(in ssa.Instruction) bool {
-				// the cursor field being re-assigned ends the hazard
-				st, ok := in.(*ssa.Store)
-				if !ok {
-					return false
-				}
-				if u, isL := el.(*ssa.UnOp); isL && u.Op == token.MUL {
-					return ssax.SameExpr(st.Addr, u.X)
-				}
-				return false
-			}}.Find()
-			pos := ipos(c, rm.Instr)
-			if found {
-				pos = ipos(c, hit)
-			}
-			c.Check(!found, "C01.R2", fmt.Sprintf("mem-queue|no-walk-after-unlink|%s#%d", fname(rm.Fn), ri), pos, "cursor advanced before the element is unlinked", "Next()/Prev() is called on a list element after List.Remove unlinked it (container/list clears the links): the read cursor becomes nil and the messages queued behind it are stranded")
-		}
-	}
+	memQueueNoWalkAfterUnlink(c, "C01.R2")
 
 	// ---- R3 private copy
 	am := p.Func("server", "(*server).addMsgToQueueLocked")
@@ -547,4 +516,42 @@ func c01(c *core.Ctx) {
 	c.Analysed(fname(fh))
 	enq := ssax.Calls(fh, false, ssax.ByFunc(am))
 	c.Check(len(enq) == 2, "C01.R8", "flush|enqueues", fpos(c, fh), "one enqueue site per share group and one per onlyonce client", fmt.Sprintf("flush must enqueue once per share group and once per onlyonce client (found %d sites)", len(enq)))
+}
+
+// memQueueNoWalkAfterUnlink: typestate rule of container/list in the memory queue.
+func memQueueNoWalkAfterUnlink(c *core.Ctx, rule string) {
+	p := c.P
+	// no traversal of a list element after it was unlinked
+	for _, fn := range p.FuncsOfPkg("persistence/queue/mem") {
+		for ri, rm := range ssax.Calls(fn, false, ssax.ByName("(*container/list.List).Remove")) {
+			el := ssax.Args(rm.Instr)[0]
+			hit, found := ssax.PathQuery{Fn: rm.Fn, From: rm.Instr, NoBackEdges: true, To: func(in ssa.Instruction) bool {
+				call, ok := in.(*ssa.Call)
+				if !ok {
+					return false
+				}
+				n := ssax.ResolveCallee(&call.Call).Name
+				if n != "(*container/list.Element).Next" && n != "(*container/list.Element).Prev" {
+					return false
+				}
+				return call.Call.Args[0] == el || ssax.SameExpr(call.Call.Args[0], el)
+			}, Avoid: func(in ssa.Instruction) bool {
+				// the cursor field being re-assigned ends the hazard
+				st, ok := in.(*ssa.Store)
+				if !ok {
+					return false
+				}
+				if u, isL := el.(*ssa.UnOp); isL && u.Op == token.MUL {
+					return ssax.SameExpr(st.Addr, u.X)
+				}
+				return false
+			}}.Find()
+			pos := ipos(c, rm.Instr)
+			if found {
+				pos = ipos(c, hit)
+			}
+			c.Check(!found, rule, fmt.Sprintf("mem-queue|no-walk-after-unlink|%s#%d", fname(rm.Fn), ri), pos, "cursor advanced before the element is unlinked", "Next()/Prev() is called on a list element after List.Remove unlinked it (container/list clears the links): the read cursor becomes nil and the messages queued behind it are stranded")
+		}
+	}
+
 }
